@@ -395,6 +395,9 @@ namespace verif
 
     Verdict run_case(const uint8_t* data, size_t size, Report& rep)
     {
+        GroupingLocale loc(GroupingLocale::wanted(data, size));
+        if (loc.on)
+            rep.label("global-locale-groups-digits");
         Choices c(data, size);
         if (c.pick(4) == 0)
             return request_half(c, rep);
